@@ -18,7 +18,7 @@ from ..core import guarded
 ID = "C11"
 TECHNIQUE = ("Hypothesis-generated molecules/aggregates against the direct Fourier sum on the returned axis (closed-form "
              "line-shape functions) plus metamorphic relations and input purity")
-LEVEL = ("For generated molecules and aggregates of 1-4 sites (high-temperature or general overdamped Brownian baths, "
+LEVEL = ("(Also: common dipole scales down to 1e-4, Hamiltonians whose weak couplings were split off with remove_cutoff_coupling, calculators bootstrapped before for another system or rotating-wave frequency, and a repeated calculate().) For generated molecules and aggregates of 1-4 sites (high-temperature or general overdamped Brownian baths, "
          "generated dipole geometry, even and odd numbers of time points, optional supplied secular Redfield tensor): "
          "calculate(raw=True) equals 2 Re sum_n a(t_n) exp(i(w_k - W) t_n) dt - a(0) dt at every point w_k of the returned "
          "axis, a(t) = sum_alpha |d_alpha|^2 exp(-g_alpha(t) - i(w_alpha - W)t [+ R_aaaa t | - t/tau]), within the stated error "
